@@ -349,6 +349,34 @@ def copy_independence(ctx):
             if diff:
                 ctx.violate("independently-built-Configs-share-state:%s:%s" % (label, ",".join(diff)),
                             {"site": "Config.copy", "mutation": name}, {})
+    # a Config SUBCLASS of the application whose version lives outside the instance (a property over shared settings):
+    # what copy() returns is still something the server can set to 1.0 for one request without touching its own Config
+    settings = {"version": 2.0}
+
+    class SettingsConfig(cm.Config):
+        @property
+        def version(self):
+            return settings["version"]
+
+        @version.setter
+        def version(self, value):
+            settings["version"] = value
+    sub = SettingsConfig(version=2.0)
+    cp = sub.copy()
+    cp.version = 1.0
+    ctx.case(("copy", "subclass-with-a-shared-version-property"))
+    ctx.count("judged:copy-independence")
+    if sub.version != 2.0:
+        ctx.violate("copy-not-independent:copy-mutation-visible:version:Config-subclass-with-a-property", {"site": "Config.copy"},
+                    {"original_version_now": sub.version})
+    settings["version"] = 2.0
+    fx = dm.Fixture(dm.std_reg("default"), version=2.0, config=sub)
+    fx.dispatch('{"method": "echo", "params": [1], "id": 1}')
+    out = fx.dispatch('{"jsonrpc": "2.0", "method": "echo", "params": [1], "id": 2}')
+    ctx.count("judged:version-form")
+    if sub.version != 2.0 or '"jsonrpc"' not in (out or ""):
+        ctx.violate("form:1.0-for-2.0:after-a-1.0-request:Config-subclass-with-a-property", {"site": "dispatcher"},
+                    {"server_version_now": sub.version, "reply": out})
     ctx.exhaustive["single and pairwise Config mutations on copy and on original"] = True
     ctx.cell("Config.copy")
 
